@@ -1114,3 +1114,31 @@ mod tests {
         assert!(debug_str.ends_with('}'));
     }
 }
+
+// Verification hooks (compiled only with `--cfg mini_moka_verif`).
+#[cfg(mini_moka_verif)]
+impl<K, V, S> Cache<K, V, S>
+where
+    K: Hash + Eq + Send + Sync + 'static,
+    V: Clone + Send + Sync + 'static,
+    S: BuildHasher + Clone + Send + Sync + 'static,
+{
+    /// Installs the mock clock and re-derives the housekeeper's `sync_after` from it.
+    pub fn verif_set_clock(&self, mock: &crate::verif::MockClock) {
+        self.base.verif_set_clock(mock);
+    }
+
+    /// The popularity estimate the admission policy would read for `key` now.
+    pub fn verif_frequency(&self, key: &K) -> u8 {
+        self.base.verif_frequency(key)
+    }
+
+    pub fn verif_snapshot(
+        &self,
+        base: std::time::Instant,
+        fk: &dyn Fn(&K) -> u64,
+        fv: &dyn Fn(&V) -> u64,
+    ) -> String {
+        self.base.verif_snapshot(base, fk, fv)
+    }
+}
